@@ -178,6 +178,14 @@ impl SimdVarintCodec {
             return Err(ZiporaError::invalid_data("Empty data for varint decoding"));
         }
 
+        // Every varint occupies at least one byte, so `data` cannot hold more than
+        // `data.len()` values: do not let a bogus `count` size the allocation.
+        if count > data.len() {
+            return Err(ZiporaError::invalid_data(
+                format!("Insufficient data: {} bytes cannot hold {} varints", data.len(), count)
+            ));
+        }
+
         let mut output = Vec::with_capacity(count);
 
         match self.tier {
